@@ -562,6 +562,42 @@ def rule_W_STAT(ctx, d, paths):
     ctx.ob('W-STAT', d.name + ' paths')
 
 
+def rule_W_DROP_DUMPFAIL(ctx, d):
+    """W-DROP when the write-back fails: `cache.dump(...)` raises when the archive cannot take the entry.  The entry that was to be written is then
+    still the only copy: no path removes it (or clears the cache) after a failed dump - a `finally` that deletes the victim anyway loses it."""
+    d.model.dump_fail = True
+    try:
+        paths = d.wrapper_paths()
+    finally:
+        d.model.dump_fail = False
+    n = 0
+    for o in paths:
+        evs = o.st.events
+        for i, e in enumerate(evs):
+            if e.kind != 'DUMPFAIL':
+                continue
+            n += 1
+            keys = (e.extra or {}).get('keys') or ()
+            bad = None
+            for x in evs[i + 1:]:
+                if x.kind == 'CLEAR' and not keys:
+                    bad = x
+                elif x.kind == 'CLEAR':
+                    bad = x
+                elif x.kind in ('DEL', 'POP') and x.args and (not keys or x.args[0] in keys):
+                    bad = x
+                if bad is not None:
+                    break
+            ctx.ob('W-DROP', None, bad is None)
+            if bad is not None:
+                ctx.fail('W-DROP', wq(d), 'entry removed after its write-back failed',
+                         'on the path where cache.dump(%s) raises (the archive could not take the entry) the wrapper still removes %s from memory (%s at line %d): the '
+                         'result exists nowhere any more and is evaluated again on the next call' % (
+                             ', '.join(render(k) for k in keys), 'it' if keys else 'everything', bad.kind, bad.line), where(d, bad.line), render_path(o))
+                break
+    ctx.ob('W-DROP', d.name + ' paths with a failed write-back (%d)' % n)
+
+
 def rule_W_STAT_STOREFAIL(ctx, d):
     """W-STAT when the store fails: the cache object may be an archive itself, and `cache[key] = result` then raises for a result that cannot be
     encoded.  A call that nevertheless completes (a handler took the failure) is still counted exactly once."""
@@ -718,6 +754,23 @@ def rule_W_LOOKUP(ctx, d):
     K = d.K()
     for name in ('key', 'lookup'):
         outs, v = run_closure(d, name)
+        if outs is None and v is not None and name == 'key':
+            # key built by klepto.keygen(...)(user_function): the decorator's whole key configuration must be handed over
+            kg = [t for t in subterms(v[0]) if t[0] == 'call' and t[1][0] == 'lib' and libname(t[1]) == 'keygen']
+            if kg:
+                t = kg[0]
+                kws = dict((k[1], k[2]) for k in t[3] if k[0] == 'kw')
+                missing = [p_ for p_ in ('keymap', 'tol', 'deep') if kws.get(p_) != ('role', p_)]
+                if not any(contains_term(a_, lambda x: x == ('role', 'ignore')) for a_ in t[2]):
+                    missing.append('ignore')
+                ok = not missing and any(contains_term(v[0], lambda x: x == FN) for _ in (0,))
+                ctx.ob('W-LOOKUP', '%s.key built by keygen with the full key configuration' % d.name, ok)
+                if not ok:
+                    ctx.fail('W-LOOKUP', wq(d), 'key() built by keygen without %s' % ', '.join(missing),
+                             'the key() handle is klepto.keygen(...)(f) configured without the decorator\'s %s: it computes the key with keygen\'s default for that '
+                             'setting, so for a cache created with it (e.g. deep=True and a tolerance: floats inside containers) f.key(*args) is not the key the wrapper '
+                             'stores under, and f.__cache__()[f.key(...)] fails for a resident call' % ', '.join(missing), where(d, v[1]))
+                continue
         if outs is None:
             raise AnalysisError('%s: %s() closure not found' % (d.qual, name))
         node = d.closure_node(v[0])
@@ -1635,6 +1688,35 @@ def rule_W_BKPICKLE(ctx, repo):
                          'so the clone\'s queue / counters no longer agree with each other (e.g. refcount[k] versus the occurrences of k in the queue) and its later '
                          'evictions differ from the original\'s' % (ci.name, ', '.join(hooks)), '%s:%d' % (m.rel, own[hooks[0]].node.lineno))
     ctx.ob('W-LOCAL', 'container classes of the decorator modules examined', True, n=max(1, n))
+
+
+def rule_W_CELLS(ctx, d):
+    """W-LOCAL (what a closure cell holds is pickled by value): the locals of __call__ that the closures read are the cache, the configuration and the
+    plain bookkeeping containers.  A *view* or iterator of such a container (use_count.items()) is pickled as a view of a copy - the clone ranks
+    victims by counts frozen at dump time - and a function of the `random` module bound at decoration time is a bound method of the process-wide
+    generator, pickled with a copy of its state - the clone stops following random.seed()."""
+    fn = d.call_fi.node
+    used = set()
+    for node in ast.walk(fn):
+        if isinstance(node, (ast.FunctionDef, ast.Lambda)) and node is not fn:
+            for x in ast.walk(node):
+                if isinstance(x, ast.Name) and isinstance(x.ctx, ast.Load):
+                    used.add(x.id)
+    for k, v in d.env.items():
+        if not isinstance(v, tuple) or k not in used:
+            continue
+        why = None
+        if contains_term(v, lambda t: t[0] == 'bkview'):
+            why = 'a live view of a bookkeeping container'
+        elif contains_term(v, lambda t: t[0] == 'lib' and t[1].split('.')[0] == 'random') or \
+                contains_term(v, lambda t: t[0] == 'attr' and isinstance(t[1], tuple) and t[1][0] == 'lib' and t[1][1].split('.')[0] == 'random'):
+            why = 'a function of the random module (a bound method of the process-wide generator)'
+        ctx.ob('W-LOCAL', '%s.__call__ cell %s' % (d.name, k), why is None)
+        if why is not None:
+            ctx.fail('W-LOCAL', d.qual + '.__call__', 'closure cell %s holds %s' % (k, why.split(' (')[0]),
+                     '%s.__call__ binds `%s` = %s once and the closures read it on every call: %s is pickled by value, so the unpickled function works on a frozen copy '
+                     '(victims ranked by the counts at dump time / its own forked random stream) and its evictions diverge from the original\'s under the same continuation'
+                     % (d.name, k, render(v)[:40], why), where(d, fn.lineno))
 
 
 def rule_W_LOCAL(ctx, d):
